@@ -40,6 +40,9 @@ pub enum LEvent {
     OwnerGc,
     DropSub(u16),
     Subscribe(SubSpec),
+    /// The replica is handed the owner's full current state through the external catch-up entry
+    /// point (`reset_node_state_if_update`): keys it already holds at the same version are stale.
+    CatchUp,
 }
 
 #[derive(Clone, Debug, Serialize, Deserialize)]
@@ -286,6 +289,38 @@ pub fn exec_listen(case: &LCase, tally: &mut Tally) -> Result<(), Failure> {
                         return Err(fail("C15/owner-spurious", format!("owner listeners fired during gossip: {a_actual:?}"), step, ev));
                     }
                 }
+                LEvent::CatchUp => {
+                    let snapshot: Vec<(String, chitchat::VersionedValue)> = a.node.self_node_state().key_values_including_deleted().map(|(k, vv)| (k.to_string(), vv.clone())).collect();
+                    let (omax, ogc) = {
+                        let ns = a.node.self_node_state();
+                        (ns.max_version(), ns.last_gc_version())
+                    };
+                    let before = b.node.node_state(&owner_id).map(copy_view);
+                    let r = guard(|| b.node.reset_node_state_if_update(&owner_id, snapshot.clone().into_iter(), omax, ogc));
+                    if let Err(p) = r {
+                        // never-panics is C18's statement; here the event simply cannot be evaluated
+                        tally.discard(&format!("catch-up panicked: {}", p.signature()));
+                        return Ok(());
+                    }
+                    let after = b.node.node_state(&owner_id).map(copy_view);
+                    let mut must = Vec::new();
+                    if before != after {
+                        for (k, vv) in &snapshot {
+                            if vv.is_deleted() {
+                                continue;
+                            }
+                            let held = before.as_ref().and_then(|bv| bv.entries.get(k)).map(|e| e.0);
+                            if held.map(|h| h < vv.version).unwrap_or(true) {
+                                must.extend(expected_for(&subs, k, &vv.value, "owner"));
+                            }
+                        }
+                        tally.label("catch_up_applied");
+                    }
+                    let actual = b.log.lock().unwrap().clone();
+                    if let Err(e) = check_calls(&actual, &must, &[]) {
+                        return Err(fail("C15/catch-up-calls", e, step, ev));
+                    }
+                }
                 LEvent::OwnerGc => {
                     advance_ns(GRACE_NS + 1).await;
                     let r = guard(|| a.node.verif_gc_keys_marked_for_deletion());
@@ -357,6 +392,7 @@ fn event_strategy() -> impl Strategy<Value = LEvent> {
         1 => Just(LEvent::OwnerGc),
         1 => any::<u16>().prop_map(LEvent::DropSub),
         1 => sub_strategy().prop_map(LEvent::Subscribe),
+        2 => Just(LEvent::CatchUp),
     ]
 }
 
